@@ -5,24 +5,24 @@ ROOT = os.path.dirname(os.path.dirname(os.path.abspath(__file__)))
 
 SIM = "deterministic simulation with fault injection"
 CLAIMED = {
- "C01": ("NET: N real MainLoops + Byzantine adversary + faults; agreement invariant at every commit callback", "3 C01", SIM + ": seeded schedule/fault/adversary search, invariant at every commit"),
- "C03": ("NET: at every commit callback the pair is re-validated by another correct node's real strict validator and by an independent reference predicate", "3 C03", SIM + ": cross-validation at commit"),
- "C04": ("NET with consumer verdict tables and poison blocks; history check at commit", "3 C04", SIM + ": history oracle at commit"),
+ "C01": ("NET (and one run in six RT: slow / blocking consumers, worker-select control, preemptions): N real MainLoops + Byzantine adversary + faults; agreement invariant at every commit callback", "3 C01", SIM + ": seeded schedule/fault/adversary search, invariant at every commit"),
+ "C03": ("NET (and one run in six RT): at every commit callback the pair is re-validated by another correct node's real strict validator and by an independent reference predicate", "3 C03", SIM + ": cross-validation at commit"),
+ "C04": ("NET (and one run in six RT: validation calls that block and end in a rejection, election timeouts while a consumer call is in progress, on one or all nodes) with consumer verdicts and poison blocks; history check at commit", "3 C04", SIM + ": history oracle at commit"),
  "C07": ("NET: reference NEW_VIEW-certificate predicate evaluated on the delivered history whenever a node acts in a view above 0", "3 C07", SIM + ": reference predicate over delivered history"),
  "C08": ("NET: influence (store / send / view change) of every delivered message compared with an independent authenticity predicate", "3 C08", SIM + ": influence => predicate"),
  "C09": ("NET: every outgoing VIEW_CHANGE / NEW_VIEW of a correct node checked against what was delivered to it", "3 C09", SIM + ": send-stream history check"),
  "C10": ("NET: per-node send-stream invariants (no equivocation, phase order, view order)", "3 C10", SIM + ": send-stream invariants"),
  "C11": ("NET: unmodified messages of correct senders judged at delivery to correct peers whose state satisfies the stated precondition", "3 C11", SIM + ": effect check at delivery"),
  "C12": ("NET/RT: garbage, truncated, mutated and extreme-field inputs into running nodes; recovered-panic observer and post-attack progress", "3 C12", SIM + ": panic observer + post-attack liveness"),
- "C13": ("NET/RT: callback, registration and State() sequences of every node instance", "3 C13", SIM + ": sequence invariants on the real two-goroutine runtime"),
+ "C13": ("NET/RT: callback, registration and State() sequences of every node instance; State() snapshots taken by a concurrent consumer thread that is preempted at source-instrumented synchronisation points, judged against the state before the call and after its return", "3 C13", SIM + ": sequence invariants on the real two-goroutine runtime"),
  "C17": ("COMP: the real RawMessageFilter and state.State driven by receive/advance operation sequences (seeded long sequences, plus an exhaustive sweep of short ones) against a history checker written from the statement", "3 C17", SIM + ": component under the simulator's tape vs. executable reference checker of the recorded history"),
  "C15": ("COMP: the real context registry (state.ViewContexts) against a model under seeded For/CancelOlderThan/Shutdown sequences plus an exhaustive sweep of short sequences over a 2x3 (height, view) grid; RT: gated SPI calls on the real runtime observed against the model's watermark", "3 C15", SIM + ": component vs. reference model under the tape + gate observations on the real runtime"),
- "C19": ("COMP: the real TimerBasedElectionTrigger on the fake clock under seeded Register/Stop/advance/reader/hold interleavings (hook H3 holds fired timer goroutines); timeout function tabulated over 0..200 and boundary views", "3 C19", SIM + ": component on the simulated clock, trigger history vs. arming history"),
+ "C19": ("COMP: the real TimerBasedElectionTrigger on the fake clock under seeded Register/Stop/advance/reader/hold interleavings (hook H3 holds fired timer goroutines; source-instrumented scheduling points preempt them in front of mutex acquisitions and channel operations); timeout function tabulated over 0..200 and boundary views", "3 C19", SIM + ": component on the simulated clock, trigger history vs. arming history"),
  "C14": ("RT: the NET world with one focus node under worker-select control (hook H1), gated SPI calls and UpdateState bursts (older / previous / equal / newer blocks); every UpdateState must return by the next quiescent point and must have taken effect once the node is settled", "3 C14", SIM + ": post-quiescence state vs. sync history on the real two-goroutine runtime"),
  "C16": ("RT with cancellation of the focus node injected at a generated step (idle, mid-prepare, inside blocked SPI calls, during election / sync, real timer armed, worker with several pending events): WaitUntilShutdown returns, API calls with the cancelled context return, nothing fires during 72 h of simulated time, and the bubble ends with no blocked goroutine", "3 C16", SIM + ": fault enumeration over cancellation points of generated runs; shutdown / leak / after-effects oracle"),
  "C02": ("NET runs produce genuine COMMIT / PREPARE signatures, seed shares and stored proofs; a Byzantine block provider recombines them into forged certificates (subsets at the weight boundaries, duplicates, outsiders, cross-type, other view/height/instance incl. a parallel instance with the same keys, tampered seed signature, other block, mutated/truncated/random bytes) and offers them to live nodes in both modes; real validator nil => independent reference predicate. Honest caveat: the deciding dimension is inputs and configurations, sampled, not interleavings", "3 C02", SIM + ": forged certificates from simulated histories vs. reference predicate"),
  "C05": ("NET in two phases: adversarial prefix (any faults, any Byzantine behaviour), then a stabilised schedule (no loss among correct nodes, messages before timers, nominal base*2^view timers, Byzantine members keep sending): bounded liveness - some correct member of every quorum-weight height commits before the views exceed vmax+n+3, and acceptors of the deciding view commit", "3 C05", SIM + ": bounded liveness after faults stop"),
- "C18": ("UNIT: committees of 4..64 (two real nodes, puppets for the rest); PREPREPARE / VIEW_CHANGE with views from the boundary classes (0..4n dense, powers of two, neighbourhoods of 2^31, 2^32, 2^63, 2^64-1) and 4n consecutive timeouts; acceptance / destination must be the member at (view mod n); no recovered panic. The 64-bit range is input sampling carried by the simulator, not schedule search", "3 C18", SIM + ": leader rotation judged by behaviour of real nodes"),
+ "C18": ("NET runs (one in four): every vote destination, stored proposal sender and vote-storing node in the middle of real protocol traffic must be the member at (view mod n). UNIT: committees of 4..64 (two real nodes, puppets for the rest); PREPREPARE / VIEW_CHANGE with views from the boundary classes (0..4n dense, powers of two, neighbourhoods of 2^31, 2^32, 2^63, 2^64-1) and 4n consecutive timeouts; acceptance / destination must be the member at (view mod n); no recovered panic. The 64-bit range is input sampling carried by the simulator, not schedule search", "3 C18", SIM + ": leader rotation judged by behaviour of real nodes"),
 }
 PLANNED = {
 }
@@ -59,7 +59,7 @@ def main():
         "setup_cmd": "./check build",
         "hooks": {
             "guard": "verif",
-            "enable": "go1.26.8 test -tags verif -c ./lhsim (GOTOOLCHAIN=local GOFLAGS=-mod=mod GOPROXY=off GOSUMDB=off; module replace => /repo)",
+            "enable": "./check build: copies /repo's working tree to a scratch directory, inserts verifhook.Yield / verifhook.Held calls at every synchronisation point (tools/yieldinst), builds go1.26.8 test -tags verif -c ./lhsim against that copy (GOTOOLCHAIN=local GOFLAGS=-mod=mod GOPROXY=off GOSUMDB=off; -modfile with replace => the copy), removes the copy",
             "baseline_off_cmd": "cd /repo && GOFLAGS=-mod=mod GOPROXY=off GOSUMDB=off go test -json -vet=off -count=1 -timeout 25m ./...",
             "source_commits": [l.split()[0] for l in hooks_commits],
             "add_only": True,
